@@ -23,58 +23,133 @@ from .common import *
 E = 'mystic.abstract_ensemble_solver:AbstractEnsembleSolver'
 
 
+def mangled_name(cls, attr):
+    return '_%s%s' % (cls.lstrip('_'), attr) if attr.startswith('__') and not attr.endswith('__') else attr
+
+
+def best_member_scan(ctx):
+    """path-based facts about AbstractEnsembleSolver.__update_bestSolver (used by C09.a and C07.d):
+    returns dict(f, loop, stores=[(path, member term, literals, node)], skip_ok, iter_ok)"""
+    f = ctx.func(E + '.__update_bestSolver')
+    sn = selfname_of(f)
+    S = ('name', sn)
+    loops = [n for n in walk_no_nested(f.node) if isinstance(n, ast.For)]
+    if not loops:
+        raise AnalysisError('no scan loop in __update_bestSolver')
+    lp = loops[0]
+    it = T.term(lp.iter)
+    alls = ('attr', S, '_allSolvers')
+    iter_ok = it in (alls, ('sub', alls, ('slice', None, None, None)))
+    BEST = ('attr', S, '_bestSolver')
+
+    def rel(n):
+        return isinstance(n, (ast.Assign, ast.AugAssign, ast.Continue, ast.Break, ast.Return))
+    paths = [p for p in enumerate_paths(f.node, relevant=rel, unroll=(0, 1)) if p.exit != 'raise']
+    ctx.stats['paths_enumerated'] += len(paths)
+    stores = []
+    seen = set()
+    for p in paths:
+        b = T.Builder()
+        lits = []
+        member = None
+        for e in p.events:
+            if e[0] == 'iter' and e[1] is lp:
+                for n in ast.walk(lp.target):
+                    if isinstance(n, ast.Name):
+                        b.env.pop(n.id, None)
+                member = ('name', lp.target.id) if isinstance(lp.target, ast.Name) else None
+                lits = []
+            elif e[0] == 'cond':
+                c, tr = T.simp(b.t(e[1])), e[2]
+                while isinstance(c, tuple) and c and c[0] == 'not':
+                    c, tr = c[1], not tr
+                if c[0] == 'cmp' and c[1] == 'isnot':
+                    c, tr = ('cmp', 'is') + c[2:], not tr
+                lits.append((c, tr))
+            elif e[0] == 'stmt':
+                st = e[1]
+                if isinstance(st, ast.Assign) and any(T.term(tg) == BEST for tg in st.targets) and member is not None:
+                    k = (id(st), tuple(lits))
+                    if k not in seen:
+                        seen.add(k)
+                        stores.append((p, T.simp(b.t(st.value)), list(lits), st, member))
+                    continue
+                if isinstance(st, ast.Assign) and all(isinstance(tg, ast.Name) for tg in st.targets):
+                    b.exec_stmt(st)
+    return {'f': f, 'loop': lp, 'stores': stores, 'iter_ok': iter_ok, 'iter': it, 'sn': sn}
+
+
+def incumbent_term(sn):
+    S = ('name', sn)
+    return ('call', ('name', 'getattr'), (('attr', S, '_bestSolver'), ('const', 'bestEnergy'), ('attr', S, 'bestEnergy')), ())
+
+
 @rule('C09.a', min_instances=3)
 def reduction(ctx):
     """__update_bestSolver scans all slots and keeps a member only if its best energy is <= the incumbent's; __update_state copies every reported attribute from the one best member, attribute for attribute"""
-    f = ctx.func(E + '.__update_bestSolver')
-    sn = selfname_of(f)
-    loops = [n for n in f.node.body if isinstance(n, ast.For)]
-    ctx.need(loops, 'no scan loop in __update_bestSolver')
-    lp = loops[0]
-    it = ''.join(unparse(lp.iter).split())
-    ctx.check(it in ('%s._allSolvers[:]' % sn, '%s._allSolvers' % sn), '__update_bestSolver#scan', 'scans every member slot',
-              'the best-member scan iterates over %s, not over all members' % it, f, lp)
-    var = lp.target.id
-    tests = [n for n in lp.body if isinstance(n, ast.If) and isinstance(n.test, ast.Compare)
-             and isinstance(n.test.ops[0], (ast.Lt, ast.LtE, ast.Gt, ast.GtE))]
-    b = T.Builder()
-    for st in lp.body:
-        if isinstance(st, ast.Assign) and isinstance(st.targets[0], ast.Name):
-            b.exec_stmt(st)
-    ctx.need(tests, 'no comparison in __update_bestSolver')
-    tt = T.simp(b.t(tests[0].test))
-    inc = ('call', ('name', 'getattr'), (('attr', ('name', sn), '_bestSolver'), ('const', 'bestEnergy'), ('attr', ('name', sn), 'bestEnergy')), ())
-    good = tt in (T.mk_cmp('<=', ('attr', ('name', var), 'bestEnergy'), inc), T.mk_cmp('<', ('attr', ('name', var), 'bestEnergy'), inc))
-    stores = [s for s in tests[0].body if isinstance(s, ast.Assign) and is_self_attr(s.targets[0], '_bestSolver', sn)]
-    good = good and bool(stores) and unparse(stores[0].value) == var
-    ctx.check(good, '__update_bestSolver#keep', 'member kept iff member.bestEnergy <= incumbent best energy',
-              'the reduction keeps a member under %s' % T.show(tt), f, tests[0])
-    skips = [n for n in lp.body if isinstance(n, ast.If) and any(isinstance(x, ast.Continue) for x in n.body)]
-    for s_ in skips:
-        ctx.check(''.join(unparse(s_.test).split()) == '%sisNone' % var, '__update_bestSolver#skip', 'only empty slots are skipped',
-                  'members are skipped under `%s`' % unparse(s_.test), f, s_)
+    r = best_member_scan(ctx)
+    f, lp, sn = r['f'], r['loop'], r['sn']
+    ctx.check(r['iter_ok'], '__update_bestSolver#scan', 'scans every member slot',
+              'the best-member scan iterates over %s, not over all members' % T.show(r['iter']), f, lp)
+    ctx.need(r['stores'], 'no path of __update_bestSolver replaces the best member')
+    inc = incumbent_term(sn)
+    for p, val, lits, node, member in r['stores']:
+        want_le = T.mk_cmp('<=', ('attr', member, 'bestEnergy'), inc)
+        want_lt = T.mk_cmp('<', ('attr', member, 'bestEnergy'), inc)
+        known = (want_le, True) in lits or (want_lt, True) in lits
+        ctx.check(val == member and known, '__update_bestSolver#keep', 'member kept only where member.bestEnergy <= incumbent best energy is known',
+                  'the reduction keeps %s under %s' % (T.show(val)[:40], [(T.show(c)[:50], tr) for c, tr in lits][:3]), f, node)
+        # members are skipped only when the slot is empty: every literal on the way is the emptiness test or the energy test
+        others = [(c, tr) for c, tr in lits if c not in (want_le, want_lt)]
+        ok_skip = all(c == ('cmp', 'is', member, ('const', None)) and tr is False for c, tr in others)
+        ctx.check(ok_skip, '__update_bestSolver#skip', 'only empty slots are skipped',
+                  'members are skipped under `%s`' % [(T.show(c)[:60], tr) for c, tr in others][:2], f, node)
     g = ctx.func(E + '.__update_state')
     sn = selfname_of(g)
+    S = ('name', sn)
+    BEST = ('attr', S, '_bestSolver')
     need = {'population', 'popEnergy', 'bestSolution', 'bestEnergy', '_fcalls'}
+    # straight-line substitution: `best = self._bestSolver; self.population = best.population` is the same hand-back
+    bld = T.Builder()
     seen = set()
-    for st in g.node.body:
-        if isinstance(st, ast.Assign) and is_self_attr(st.targets[0], None, sn) and isinstance(st.value, ast.Attribute) \
-                and is_self_attr(st.value.value, '_bestSolver', sn):
+    mons = {}
+    scan_names = None
+    for st in stmts_of(g.node):
+        if isinstance(st, ast.Assign) and len(st.targets) == 1 and is_self_attr(st.targets[0], None, sn):
             a = st.targets[0].attr
-            seen.add(a)
-            ctx.check(st.value.attr == a, '__update_state#' + a, 'self.%s = self._bestSolver.%s' % (a, a),
-                      'the ensemble reports %s taken from the best member\'s %s' % (a, st.value.attr), g, st)
-        elif isinstance(st, ast.Assign) and is_self_attr(st.targets[0], None, sn) and st.targets[0].attr in need:
-            ctx.bad('__update_state#' + st.targets[0].attr, 'the ensemble reports %s from %s, not from the best member' % (st.targets[0].attr, unparse(st.value)), g, st)
-            seen.add(st.targets[0].attr)
+            v = T.simp(bld.t(st.value))
+            if a in ('_stepmon', '_evalmon'):
+                mons[a] = v
+            elif v[0] == 'attr' and v[1] == BEST:
+                seen.add(a)
+                ctx.check(v[2] == a, '__update_state#' + a, 'self.%s = self._bestSolver.%s' % (a, a),
+                          'the ensemble reports %s taken from the best member\'s %s' % (a, v[2]), g, st)
+            elif a in need:
+                ctx.bad('__update_state#' + a, 'the ensemble reports %s from %s, not from the best member' % (a, T.show(v)[:60]), g, st)
+                seen.add(a)
+        elif isinstance(st, ast.Assign):
+            bld.exec_stmt(st)
     ctx.check(need <= seen, '__update_state#complete', 'hands back %s' % sorted(need), '__update_state no longer hands back %s' % sorted(need - seen), g, g.node)
-    mons = {s.targets[0].attr: unparse(s.value) for s in g.node.body if isinstance(s, ast.Assign) and is_self_attr(s.targets[0], None, sn)
-            and s.targets[0].attr in ('_stepmon', '_evalmon')}
-    ctx.check(mons == {'_stepmon': 'bestpath', '_evalmon': 'besteval'}, '__update_state#monitors', 'monitors are the best member\'s',
-              'monitors handed back as %s' % mons, g, g.node)
-    h = ctx.func(E + '.__update_bestSolver')
-    src = ''.join(unparse(h.node).split())
-    ctx.check('bestpath=solver._stepmon' in src and 'besteval=solver._evalmon' in src, '__update_bestSolver#monitors', 'bestpath/besteval are the kept member\'s monitors',
+    scan = ('call', ('attr', S, mangled_name('AbstractEnsembleSolver', '__update_bestSolver')), (), ())
+    ok_m = mons.get('_stepmon') == ('sub', scan, T.num(0)) and mons.get('_evalmon') == ('sub', scan, T.num(1))
+    ctx.check(ok_m, '__update_state#monitors', 'monitors are the two results of the best-member scan, in order (step, evaluation)',
+              'monitors handed back as %s' % {k: T.show(v)[:50] for k, v in mons.items()}, g, g.node)
+    # the scan returns (step monitor, evaluation monitor) of the member it kept
+    h = r['f']
+    rts = return_terms(h.node)
+    ctx.need(rts, '__update_bestSolver: no return value')
+    okr = True
+    for p, term, b, conds in rts:
+        elems = flatten_seq(term)
+        if not elems or len(elems) != 2:
+            okr = False
+            continue
+        for e_, attr in zip(elems, ('_stepmon', '_evalmon')):
+            if e_ == ('const', None):
+                continue
+            if not (e_[0] == 'attr' and e_[2] == attr and e_[1][0] in ('name', 'elem')):
+                okr = False
+    ctx.check(okr, '__update_bestSolver#monitors', 'returns (member._stepmon, member._evalmon) of the kept member (or None, None)',
               'bestpath/besteval no longer come from the kept member', h, h.node)
 
 
@@ -127,13 +202,23 @@ def member_count(ctx):
               'AbstractEnsembleSolver.__init__#slots', '_npts empty slots, allocated after _npts is final', 'slots allocated as %s' % (unparse(slots[0].value) if slots else None), f, slots[0] if slots else f.node)
     g = ctx.func(E + '.__init_allSolvers')
     sn = selfname_of(g)
-    loops = [n for n in g.node.body if isinstance(n, ast.For)]
-    ctx.need(loops, '__init_allSolvers: loop not found')
-    lp = loops[0]
-    src = ''.join(unparse(lp).split())
-    good = src.startswith('fori,opinenumerate(%s._allSolvers):' % sn) and 'ifopisNone:' in src and 'op=_copy(solver)' in src and \
-        'op.id=i+at' in src and '%s._allSolvers[i]=op' % sn in src
-    ctx.check(good, '__init_allSolvers', 'every empty slot i gets _copy(solver) with id i+at', 'member creation changed: %s' % src[:160], g, lp)
+    # behavioural summary against the reference form (renamed locals, guard-by-continue, `x if x else 0` vs `x or 0` are absorbed)
+    ref = '''def __init_allSolvers(self, reset=False):
+    solver = self._AbstractEnsembleSolver__get_solver_instance(reset)
+    from copy import deepcopy as _copy
+    at = self.id if self.id else 0
+    for i,op in enumerate(self._allSolvers):
+        if op is None:
+            op = _copy(solver)
+            op.id = i + at
+            self._allSolvers[i] = op
+    return self._allSolvers
+'''.replace('self', sn)
+    got = SB.summary(g.node)
+    want = SB.summary_of_source(ref)
+    ctx.stats['terms_compared'] += len(got)
+    ctx.check(got == want, '__init_allSolvers', 'every empty slot i gets its own _copy(prototype) with id i + offset; filled slots are left alone',
+              'member creation changed: %s' % SB.diff(got, want), g, g.node)
     imp = [n for n in walk_no_nested(g.node) if isinstance(n, ast.ImportFrom) and n.module == 'copy']
     ctx.check(any(a.name == 'deepcopy' and a.asname == '_copy' for n in imp for a in n.names), '__init_allSolvers#deepcopy', '_copy is copy.deepcopy',
               'members are no longer deep copies of the prototype', g, imp[0] if imp else g.node)
